@@ -41,6 +41,37 @@ def _leaves():
     return [x, y, z, sympy.Integer(2), sympy.Integer(-1), sympy.Integer(3), sympy.Rational(1, 3), sympy.Float(0.5), sympy.Float(-2.25), sympy.I]
 
 
+def _check_numbers(i):
+    """number leaves of every kind and size: the translated-back constant denotes the same number (relative 1e-15 for floats / rationals, exactly for integers), alone and
+    inside a sum, a product and a function argument (where an absolute change of the constant shows)"""
+    import sympy
+    from orquestra.quantum.circuits.symbolic.sympy_expressions import SYMPY_DIALECT, expression_from_sympy
+    from orquestra.quantum.circuits.symbolic.translations import translate_expression
+    x, y = sympy.symbols("x y")
+    consts = [sympy.Float(1234567890.5), sympy.Float(2 ** 40 + 0.25), sympy.Float(5000000.004), sympy.Rational(2469135781, 2), sympy.Float(1e15 + 0.5), sympy.Float(123456.789), sympy.Float(1e-10),
+              sympy.Float(-98765432.125), sympy.Float(1000000.25), sympy.Float(2.0), sympy.Float(1e300), sympy.Integer(2 ** 64 + 1), sympy.Integer(-10 ** 30), sympy.Rational(1, 10 ** 9),
+              sympy.Rational(10 ** 12 + 1, 3), sympy.Float(0.1) + sympy.Float(0.2), sympy.Integer(0), sympy.Float(0.0)]
+    for c in consts:
+        for e in (c, c * x, c + x, sympy.cos(c * x), x ** 2 * c - c, c * x - (c - sympy.Rational(1, 2)) * y):
+            e = sympy.sympify(e)
+            try:
+                back = sympy.sympify(translate_expression(expression_from_sympy(e), SYMPY_DIALECT))
+            except (NotImplementedError, ValueError):
+                if e.atoms(sympy.Function) - e.atoms(sympy.cos):
+                    continue
+                return False, f"supported expression {e} refused"
+            for env in ({x: 1, y: 1}, {x: sympy.Rational(7, 10), y: sympy.Rational(-13, 10)}):
+                a, b = sympy.N(e.subs(env), 40), sympy.N(back.subs(env), 40)
+                scale = max(abs(complex(sympy.N(c, 40))), 1e-300) if e.has(sympy.cos) else max(abs(complex(a)), abs(complex(sympy.N(c, 40))) * 1e-3, 1e-300)
+                if e.has(sympy.cos):
+                    arg_err = abs(complex(sympy.N((back.args[0] if back.func == sympy.cos else back) - (e.args[0] if e.func == sympy.cos else e), 40).subs(env))) if back.func == e.func == sympy.cos else abs(complex(a - b))
+                    if arg_err > 1e-15 * scale + 1e-300:
+                        return False, f"{e}: the constant came back changed ({back}); argument differs by {arg_err:.3g}"
+                elif abs(complex(a - b)) > 2e-15 * scale:
+                    return False, f"{e} at {env}: value {a} became {b} after the round trip ({back})"
+    return True, "ok"
+
+
 def _trees(tier):
     import sympy
     L = _leaves()
@@ -160,7 +191,8 @@ def _check_refuse(i):
 def _check_natkey(prefix):
     from orquestra.quantum.circuits.symbolic._sorting import natural_key, natural_key_revlex
     from orquestra.quantum.circuits.symbolic.expressions import Symbol
-    nums = [0, 1, 2, 9, 10, 11, 19, 20, 99, 100, 101, 999, 1000, 1001, 2000, 9999, 10000, 10001, 12345, 99999, 100000, 123456]
+    nums = [0, 1, 2, 9, 10, 11, 19, 20, 99, 100, 101, 999, 1000, 1001, 2000, 9999, 10000, 10001, 12345, 99999, 100000, 123456, 999999, 1000000, 1000001, 2000000, 9999999, 10000000,
+            123456789, 2 ** 31 - 1, 2 ** 31, 10 ** 12, 10 ** 12 + 1, 2 ** 64 + 1, 10 ** 30]
     names = [Symbol(f"{prefix}{n}") for n in nums]
     import random
     rng = random.Random(1)
@@ -171,7 +203,7 @@ def _check_natkey(prefix):
     for a, b in itertools.combinations(range(len(nums)), 2):
         if not natural_key(names[a]) < natural_key(names[b]):
             return False, f"{names[a].name} is not before {names[b].name}"
-    two = [Symbol(f"{prefix}{i}_{j}") for i in (1, 2, 10) for j in (0, 3, 20, 100)]
+    two = [Symbol(f"{prefix}{i}_{j}") for i in (1, 2, 10, 1000000, 20000000) for j in (0, 3, 20, 100, 3000000)]
     sh = list(two)
     rng.shuffle(sh)
     if sorted(sh, key=natural_key) != two:
@@ -358,6 +390,9 @@ def build(tier, seed):
         obs.append(vprop.enum_ob(f"C19.roundtrip.enum[{i}]", F_OPS[:8], lambda i=i: [(i, tier)], _check_tree,
                                  "every expression tree of the grammar to depth 3 (slice of the enumeration): sympy -> neutral tree -> sympy equals the original for all symbol values "
                                  "(sympy simplify), supported expressions are not refused", timeout=1200))
+    obs.append(vprop.enum_ob("C19.numbers.enum", F_OPS[:1] + [TR + ":translate_expression", TR + ":translate_number"], lambda: [0], _check_numbers,
+                             "bounded: number leaves of every kind and magnitude (floats with fractional parts at 1e6 .. 1e15, rationals, integers beyond 64 bits, tiny values) keep their value to "
+                             "relative 1e-15 alone and inside sums / products / function arguments"))
     obs.append(vprop.enum_ob("C19.refuse.enum", F_OPS[:1] + [TR + ":translate_function_call"], lambda: [0], _check_refuse,
                              "constructs outside the supported set are refused with an error (or translated value-preservingly), unknown function names are rejected by the dialect"))
     obs.append(vprop.enum_ob("C19.natkey.enum", [SO + ":natural_key", SO + ":natural_key_revlex"], lambda: ["beta_", "x", "theta_2_", "q"], _check_natkey,
